@@ -158,6 +158,12 @@ type Store struct {
 	DefaultManager  string
 	poisoned        map[string]bool
 	admitting       int
+	// DeleteFinalizers lists, per kind, finalizers the API server itself adds
+	// to an object when its deletion is first requested (as the
+	// apiextensions API server does for CustomResourceDefinitions with
+	// customresourcecleanup.apiextensions.k8s.io). Whoever models the
+	// corresponding controller removes them.
+	DeleteFinalizers map[schema.GroupKind][]string
 	// graveyard keeps the last versions of removed objects, so that a lagging
 	// cache can still serve an object the store has already deleted.
 	graveyard map[ObjKey][]*unstructured.Unstructured
@@ -177,6 +183,8 @@ func New(s *runtime.Scheme) *Store {
 		DefaultManager:  "crossplane",
 		poisoned:        map[string]bool{},
 		graveyard:       map[ObjKey][]*unstructured.Unstructured{},
+
+		DeleteFinalizers: map[schema.GroupKind][]string{},
 	}
 }
 
@@ -500,6 +508,9 @@ func (s *Store) Clone() *Store {
 	}
 	for k, v := range s.NamespacedKinds {
 		n.NamespacedKinds[k] = v
+	}
+	for k, v := range s.DeleteFinalizers {
+		n.DeleteFinalizers[k] = v
 	}
 	for k, v := range s.indexes {
 		n.indexes[k] = map[string]indexer{}
